@@ -8,7 +8,12 @@
 (***************************************************************************)
 EXTENDS DxRun, Json
 
-Shapes == {<<0>>, <<2>>, <<0, 1, 2>>, <<1, 1>>, <<3, 0>>}    \* number of fields per variant
+CONSTANT SHAPESET       \* "small" (quick tier) | "large" (thorough tier)
+
+\* number of fields per variant
+SmallShapes == {<<0>>, <<2>>, <<0, 1, 2>>, <<1, 1>>, <<3, 0>>}
+Shapes == IF SHAPESET = "small" THEN SmallShapes
+          ELSE SmallShapes \cup {<<4>>, <<1>>, <<2, 2, 2>>, <<1, 0, 3, 2>>, <<0, 0>>, <<3, 3>>}
 Vars == {"a", "b"}
 
 RECURSIVE Tuples(_)
